@@ -39,7 +39,7 @@ Record inv (r : rob) : Prop := mk_inv {
   i_ok : Forall trans_ok (map snd (g_rel r) ++ r_trans r);
   i_fresh : forall t, In t (r_trans r) -> t_bot_id t < r_next_id r;
   i_nodup : NoDup (map t_bot_id (r_trans r));
-  i_shadow : g_shadow r = map (fun a => shadow_of (fst a) (snd a)) (g_acc r) }.
+  i_shadow : forall a, In a (g_acc r) -> In (shadow_of (fst a) (snd a)) (g_shadow r) }.
 
 (** what has been put on the ports so far: [dt]/[db] were drained, the rest is still queued *)
 Definition hist (dt : list trsp) (db : list sreq) (r : rob) : Prop :=
@@ -48,7 +48,7 @@ Definition hist (dt : list trsp) (db : list sreq) (r : rob) : Prop :=
 Definition same_cfg (r r' : rob) : Prop :=
   r_size r' = r_size r /\ r_width r' = r_width r /\ r_top_cap r' = r_top_cap r /\ r_bot_cap r' = r_bot_cap r.
 
-Lemma inv_init size width tc bc : inv (rob_init size width tc bc).
+Lemma inv_init size width tc bc cc : inv (rob_init size width tc bc cc).
 Proof.
   constructor; cbn.
   - reflexivity.
@@ -56,7 +56,7 @@ Proof.
   - constructor.
   - intros t [].
   - constructor.
-  - reflexivity.
+  - intros a [].
 Qed.
 
 (** ---- bottomUp *)
@@ -172,7 +172,9 @@ Qed.
 Lemma top_down_inv r ok r' dt db : inv r -> hist dt db r -> top_down r = (ok, r') ->
   inv r' /\ hist dt db r' /\ same_cfg r r'.
 Proof.
-  intros I [H1 H2]. unfold top_down. destruct (r_top_in r) as [|q rest] eqn:T.
+  intros I [H1 H2]. unfold top_down.
+  destruct (negb (r_cstate r =? 0)). { intro E. inversion E; subst. split; [exact I|split; [split; assumption|repeat split]]. }
+  destruct (r_top_in r) as [|q rest] eqn:T.
   - intro E. inversion E; subst. split; [exact I|split; [split; assumption|repeat split]].
   - destruct (r_size r <=? Z.of_nat (length (r_trans r)))%Z.
     { intro E. inversion E; subst. split; [exact I|split; [split; assumption|repeat split]]. }
@@ -189,11 +191,56 @@ Proof.
            ++ apply (i_nodup r I).
            ++ intro Hin. apply in_map_iff in Hin. destruct Hin as [t [Ht Hin]].
               pose proof (i_fresh r I t Hin). lia.
-        -- rewrite map_app, (i_shadow r I). reflexivity.
+        -- intros a Ha. apply in_app_or in Ha. apply in_or_app. destruct Ha as [Ha|[<-|[]]]; [left; apply (i_shadow r I a Ha)|right; left; reflexivity].
       * unfold hist, upd_ports; cbn [g_rel r_top_out g_shadow r_bot_out]. split; [exact H1|].
         rewrite H2, <- app_assoc. reflexivity.
     + intro E. inversion E; subst. split; [|split; [split; assumption|repeat split]].
       constructor; unfold upd_ports; cbn [g_acc g_rel r_trans r_next_id g_shadow]; rewrite <- ?T;
         [apply (i_order r I)|apply (i_rel r I)|apply (i_ok r I)| |apply (i_nodup r I)|apply (i_shadow r I)].
       intros t Ht. pose proof (i_fresh r I t Ht). lia.
+Qed.
+
+Lemma In_firstn_acc {A} (n : nat) (l : list A) x : In x (firstn n l) -> In x l.
+Proof. intro H. rewrite <- (firstn_skipn n l). apply in_or_app. left. exact H. Qed.
+
+(** ---- processControlMsg (Pause / Drain / Enable / Reset / unsupported) *)
+Lemma upd_ctl_inv r id cs cid csrc cin cout : r_next_id r <= id -> inv r -> inv (upd_ctl r id cs cid csrc cin cout).
+Proof.
+  intros Hid I. constructor; unfold upd_ctl; cbn [g_acc g_rel r_trans r_next_id g_shadow];
+    [apply (i_order r I)|apply (i_rel r I)|apply (i_ok r I)| |apply (i_nodup r I)|apply (i_shadow r I)].
+  intros t Ht. pose proof (i_fresh r I t Ht). lia.
+Qed.
+
+Lemma process_control_inv r ok r' dt db : inv r -> hist dt db r -> process_control r = (ok, r') ->
+  inv r' /\ hist dt db r' /\ same_cfg r r'.
+Proof.
+  intros I [H1 H2]. unfold process_control, ctl_reply.
+  assert (Same : forall id cs cid csrc cin cout, r_next_id r <= id ->
+            inv (upd_ctl r id cs cid csrc cin cout) /\ hist dt db (upd_ctl r id cs cid csrc cin cout) /\
+            same_cfg r (upd_ctl r id cs cid csrc cin cout)).
+  { intros. split; [apply upd_ctl_inv; assumption|split; [split; assumption|repeat split]]. }
+  assert (Id : inv r /\ hist dt db r /\ same_cfg r r) by (split; [exact I|split; [split; assumption|repeat split]]).
+  destruct (r_cstate r =? 3).
+  - destruct (r_trans r); [|intro E; inversion E; subst; exact Id].
+    destruct (ctl_can_send r); intro E; inversion E; subst; [apply Same; lia|exact Id].
+  - destruct (r_ctl_in r) as [|[id src cmd|] rest]; [intro E; inversion E; subst; exact Id| |].
+    + destruct (cmd =? 1); [intro E; inversion E; subst; apply Same; lia|].
+      destruct (negb (ctl_can_send r)); [intro E; inversion E; subst; exact Id|].
+      destruct (cmd =? 0); [intro E; inversion E; subst; apply Same; lia|].
+      destruct (cmd =? 2); [intro E; inversion E; subst; apply Same; lia|].
+      destruct (cmd =? 3); [|intro E; inversion E; subst; apply Same; lia].
+      (* Reset *)
+      intro E. inversion E; subst. split; [|split; [split; assumption|repeat split]].
+      pose proof (i_order r I) as O. pose proof (i_ok r I) as K. apply Forall_app in K. destruct K as [K1 _].
+      constructor; cbn [g_acc g_rel r_trans r_next_id g_shadow].
+      * rewrite app_nil_r. rewrite (map_app tkey) in O.
+        rewrite <- firstn_map, O.
+        replace (length (g_rel r)) with (length (map tkey (map snd (g_rel r)))) by (rewrite !map_length; reflexivity).
+        rewrite firstn_app, Nat.sub_diag, firstn_all. cbn [firstn]. rewrite app_nil_r. reflexivity.
+      * apply (i_rel r I).
+      * rewrite app_nil_r. exact K1.
+      * intros t [].
+      * constructor.
+      * intros a Ha. apply (i_shadow r I). apply (In_firstn_acc _ _ _ Ha).
+    + intro E. inversion E; subst. apply Same. lia.
 Qed.
